@@ -323,6 +323,9 @@ func genSilentReference(repo string) error {
 var silentRefCache *silentRef
 
 func runSilentFail(c *Ctx, pkgs []string) {
+	if !referenceConfig(c) {
+		return
+	}
 	if silentRefCache == nil {
 		b, err := os.ReadFile(filepath.Join(refDir, "silentfail.json"))
 		if err != nil {
